@@ -338,12 +338,12 @@ def check_forwarding(check, funcs, rule: str = 'R-FORWARD'):
         continue
       check.ob(rule + '.unused', fi, f'parameter {p}', False,
                f'parameter `{p}` of {fi.qualname} is never read (nor discarded with `del {p}`): what it configures is silently ignored',
-               node=fi.node)
+               node=fi.node, exact=True)
     for t, p in truthiness_of_optional_numbers(fi):
       if not rel(p):
         continue
       check.ob(rule + '.none-test', fi, f'truth test of {p}', False,
-               f'`{p}` is an optional number: testing it by truthiness treats an explicit 0 / 0.0 like "not given" (use `is None`)', node=t)
+               f'`{p}` is an optional number: testing it by truthiness treats an explicit 0 / 0.0 like "not given" (use `is None`)', node=t, exact=True)
     try:
       ff = FuncFlow.of(repo, fi)
     except Exception:  # pylint: disable=broad-except
@@ -358,7 +358,7 @@ def check_forwarding(check, funcs, rule: str = 'R-FORWARD'):
                  nontrivial=False)
         continue
       check.ob(rule + '.same-name', fi, txt(c)[:90], False,
-               f'{fi.qualname} holds `{p}` but calls {g.qualname} without it: the callee silently uses its default for `{p}`', node=c)
+               f'{fi.qualname} holds `{p}` but calls {g.qualname} without it: the callee silently uses its default for `{p}`', node=c, exact=True)
     from fjsa.flow import bound_args
     for _, c in ff.calls():
       info = _callee_info(ff, c)
@@ -370,7 +370,7 @@ def check_forwarding(check, funcs, rule: str = 'R-FORWARD'):
         if isinstance(a, ast.Name) and a.id != p and a.id in gnames and p in gnames and (rel(p) or rel(a.id)):
           check.ob(rule + '.swapped', fi, txt(c)[:90], False,
                    f'`{a.id}` is passed where {g.qualname} expects `{p}`, although {g.qualname} has a parameter called `{a.id}`: '
-                   'the two arguments are in each other\'s place', node=a)
+                   'the two arguments are in each other\'s place', node=a, exact=True)
     # the same for positional arguments of third-party callees whose signature the installed package tells us (optax, jax, haiku)
     for _, c in ff.calls():
       pth = ff.ext(c.func)
@@ -384,11 +384,11 @@ def check_forwarding(check, funcs, rule: str = 'R-FORWARD'):
         if isinstance(a, ast.Name) and a.id != p and a.id in allp and (rel(p) or rel(a.id)):
           check.ob(rule + '.swapped', fi, txt(c)[:90], False,
                    f'`{a.id}` is passed positionally where {pth} expects `{p}` (signature of the installed package), although {pth} has a '
-                   f'parameter called `{a.id}`', node=a)
+                   f'parameter called `{a.id}`', node=a, exact=True)
     if only is None:
       for c, how in filtered_kwargs(ff):
         check.ob(rule + '.kwargs', fi, txt(c)[:90], False,
-                 f'the keyword arguments are filtered ({how}) before they are forwarded: some of the caller\'s overrides are dropped', node=c)
+                 f'the keyword arguments are filtered ({how}) before they are forwarded: some of the caller\'s overrides are dropped', node=c, exact=True)
   check.ob(rule, ('fedjax', '<functions in scope>'), f'{len(seen)} functions, {n_params} parameters', True,
            'every parameter is read or explicitly discarded; same-named parameters are passed on to repository callees; optional numbers are '
            'not tested by truthiness; **kwargs are forwarded unfiltered', nontrivial=False)
